@@ -7,3 +7,7 @@ c2 = c.update_template(name='c2')
 c2.update_var(edge_vars=[('a/op/x', 'b/op/u', {'weight': 5.0})])
 print('original:', c.edges, 'derived:', c2.edges)
 assert c.edges[0][3]['weight'] == 2.0 and c2.edges[0][3]['weight'] == 5.0
+# an edge declared without attributes (fixed df5c611)
+c = CircuitTemplate(name='c', nodes={'a': n, 'b': n}, edges=[('a/op/x', 'b/op/u', None, {})])
+c2 = c.update_template(name='c2'); c2.update_var(edge_vars=[('a/op/x', 'b/op/u', {'weight': 5.0})])
+print(c.edges, c2.edges); assert c.edges[0][3] == {}
